@@ -362,6 +362,13 @@ func (fa *FA) expandConvert(v *ssa.Convert) *Lin {
 			m := pow2(br)
 			A.addTrig(a, A.newTrigger("conv-unsigned<0", []*Lin{ineqLE(x, linConst(-1))}, []*Lin{ineqLE(r, x.add(linBig(m))), ineqLE(x.add(linBig(m)), r)}))
 		}
+		if bx > br && sr {
+			// narrowing to a signed type of an operand known to fit the unsigned range of that width
+			m := pow2(br)
+			inU := []*Lin{ineqGE(x, linConst(0)), ineqLE(x, linBig(new(big.Int).Sub(m, bi(1))))}
+			A.addTrig(a, A.newTrigger("conv-narrow≥0", append(append([]*Lin{}, inU...), ineqGE(r, linConst(0))), []*Lin{ineqLE(r, x), ineqLE(x, r)}))
+			A.addTrig(a, A.newTrigger("conv-narrow<0", append(append([]*Lin{}, inU...), ineqLE(r, linConst(-1))), []*Lin{ineqLE(r.add(linBig(m)), x), ineqLE(x, r.add(linBig(m)))}))
+		}
 		if bx > br && !sr {
 			// truncation to unsigned: r ≤ x when x ≥ 0
 			A.addTrig(a, A.newTrigger("conv-trunc", []*Lin{ineqGE(x, linConst(0))}, []*Lin{ineqLE(r, x)}))
